@@ -1526,7 +1526,7 @@ psf_strlcpy_crlf (char *dest, const char *src, size_t destmax, size_t srcmax)
 	const char * srcend = src + srcmax ;
 
 	while (dest < destend && src < srcend)
-	{	if ((src [0] == '\r' && src [1] == '\n') || (src [0] == '\n' && src [1] == '\r'))
+	{	if (src + 1 < srcend && ((src [0] == '\r' && src [1] == '\n') || (src [0] == '\n' && src [1] == '\r')))
 		{	*dest++ = '\r' ;
 			*dest++ = '\n' ;
 			src += 2 ;
